@@ -79,4 +79,59 @@ def dtOfArg : V → Except String Dt
   | .ti a b => .ok (some (a, b))
   | _ => .error "ERR:Type"
 
+/-! ## the writer side of `to_shapefile` (channel reading of the pyshp `Writer`) -/
+
+/-- the classes `to_shapefile` sorts the shapes by -/
+inductive Cls | GeoPoint | MultiGeoPoint | LineLikeMixin | PolygonLikeMixin
+deriving DecidableEq, Repr
+
+/-- `isinstance(shape, C)`: by the stored geometry -/
+def shapeIsA (c : Cls) (s : Shape) : Bool :=
+  match c, s.geom with
+  | .GeoPoint, .point _ => true
+  | .MultiGeoPoint, .mpoint _ => true
+  | .LineLikeMixin, .line _ => true
+  | .LineLikeMixin, .mline _ => true
+  | .PolygonLikeMixin, .poly _ _ => true
+  | .PolygonLikeMixin, .mpoly _ => true
+  | _, _ => false
+
+/-- `issubclass(t, c)` on the types of property values: reflexive, and `bool` is an `int` -/
+def PTag.isSub (t c : PTag) : Bool := t == c || (t == .bool && c == .int)
+
+/-- truthiness of `include_properties: Optional[List[str]]` -/
+def inclTruthy : Option (List String) → Bool
+  | some (_ :: _) => true
+  | _ => false
+
+/-- `k in include_properties` (only evaluated when it is a non-empty list) -/
+def inclContains : Option (List String) → String → Bool
+  | some l, k => l.contains k
+  | Option.none, _ => false
+
+/-- a Python value as a dbf field value -/
+def V.toP : V → PVal
+  | .p v => v
+  | _ => .null
+
+/-- a pyshp `Writer` as far as the channel contract sees it: what has been declared / written, and the record
+    waiting for its shape -/
+structure WriterS where
+  file : ShpFileW
+  pending : List PVal
+
+/-- `shapefile.Writer(os.path.join(tempdir, name))` -/
+def WriterS.new (name : String) : WriterS := ⟨⟨name, [], []⟩, []⟩
+
+/-- `writer.field(k, 'L' | 'N'[, decimal=n] | 'C')` -/
+def WriterS.field (w : WriterS) (k : String) (t : FType) : WriterS :=
+  { w with file := { w.file with fields := w.file.fields ++ [(k, t)] } }
+
+/-- `writer.record(*vals)` -/
+def WriterS.record (w : WriterS) (vals : List PVal) : WriterS := { w with pending := vals }
+
+/-- the writer method a shape's `to_pyshp(writer)` calls -/
+def WriterS.shape (w : WriterS) (c : ShpCall) : WriterS :=
+  { w with file := { w.file with rows := w.file.rows ++ [(w.pending, c)] } }
+
 end GV.Io.Py
